@@ -6,7 +6,7 @@ import time
 from abc import ABC, abstractmethod
 from typing import TYPE_CHECKING, Any, Literal
 
-from hypergraph.exceptions import ExecutionError
+from hypergraph.exceptions import ExecutionError, MissingInputError
 from hypergraph.runners._shared.helpers import (
     _UNSET_SELECT,
     _validate_error_handling,
@@ -235,8 +235,25 @@ class SyncRunnerTemplate(BaseRunner, ABC):
         validate_map_compatible(graph)
         _validate_error_handling(error_handling)
 
+        _validate_on_missing(on_missing)
+
         map_over_list = [map_over] if isinstance(map_over, str) else list(map_over)
+        missing_mapped = sorted(name for name in map_over_list if name not in normalized_values)
+        if missing_mapped:
+            raise MissingInputError(missing=missing_mapped, provided=list(normalized_values))
         input_variations = list(generate_map_inputs(normalized_values, map_over_list, map_mode, clone))
+        if input_variations and error_handling == "raise":
+            # Reject a call that cannot run before anything is emitted: all variations share
+            # their key set, so the first one stands for all (each run() validates again and
+            # reports internal overrides itself; with error_handling="continue" validation
+            # errors are collected per item instead)
+            validate_inputs(
+                graph,
+                input_variations[0],
+                entrypoint=entrypoint,
+                selected=resolve_runtime_selected(select, graph),
+                on_internal_override="ignore" if on_internal_override == "warn" else on_internal_override,
+            )
         if not input_variations:
             # Nothing to run and nothing to report, but the call has ended: processors
             # are shut down exactly once per top-level call
